@@ -1,7 +1,8 @@
 """C05 (partial): saved intermediate forms lose nothing - writer/reader symmetry.
 
 W1  FOAM byte code: per format letter the encoder (foamToBuffer), the decoders
-    (foamFrBuffer, foamProgHdrFrBuffer) and the skipper (foamFrBuffer0) perform
+    (foamFrBuffer, foamProgHdrFrBuffer) and the skippers (foamFrBuffer0, the
+    interpreter's skipProg) perform
     mirror-image buffer operations (same widths, same format selector, same
     offsets); every letter of the alphabet has a case in each.
 W2  primitive pairs: bufWr/bufRd SFloat/DFloat use paired converters and the
@@ -23,7 +24,7 @@ from .common import AnalysisBroken, strip, walk, calls, const_value, render
 
 EXPLANATION = (
     "W1: the alphabet is the set of letters of foamInfoTable[*].argf. For each letter the case body in foamToBuffer, "
-    "foamFrBuffer, foamProgHdrFrBuffer and foamFrBuffer0 is abstracted to a sequence of buffer events - fix(n) for an n-byte "
+    "foamFrBuffer, foamProgHdrFrBuffer, foamFrBuffer0 and fint.c:skipProg (which walks the same byte code on the interpreter's tape) is abstracted to a sequence of buffer events - fix(n) for an n-byte "
     "primitive (widths derived from buffer.c: number of bufAdd1 calls / constant of bufGetn or bufAddn), int(sel) for "
     "FOAM_PUT_INT/FOAM_GET_INT with selector sel in {format, labelFmt, 0}, bytes(last int), loop(last int, fix(n)), rec - and "
     "the sequences must be equal; offsets subtracted by the writer (FOAM_START, FOAM_BVAL_START, FOAM_PROTO_START) must be "
@@ -124,10 +125,18 @@ def abstract(stmts, widths, self_names):
         if n is None:
             return
         mac = n.get("mac")
-        if mac in ("FOAM_PUT_INT", "FOAM_GET_INT") and n["k"] in ("CompoundStmt", "SwitchStmt"):
+        if mac in ("FOAM_PUT_INT", "FOAM_GET_INT", "fintGetInt") and n["k"] in ("CompoundStmt", "SwitchStmt"):
             ev.append(("int", selector(n)))
             return
         k = n["k"]
+        # interpreter tape: ip++ / ip += k / fintGetn(k)
+        if k == "UnaryOperator" and n["op"] in ("post++", "++") and strip(n["c"][0]) is not None and strip(n["c"][0]).get("n") == "ip":
+            ev.append(("fix", 1))
+            return
+        if k == "CompoundAssignOperator" and n["op"] == "+=" and strip(n["c"][0]) is not None and strip(n["c"][0]).get("n") == "ip":
+            kv = const_value(n["c"][1])
+            ev.append(("fix", kv) if kv is not None else ("bytes", "lastint"))
+            return
         if k in ("ForStmt", "WhileStmt"):
             body = n["c"][-1]
             inner = abstract([body], widths, self_names)
@@ -142,7 +151,7 @@ def abstract(stmts, widths, self_names):
                 ev.append(("rec",))
             elif cal in ("bufWrChars", "bufRdChars", "bufPutChars", "bufGetChars"):
                 ev.append(("bytes", "lastint"))
-            elif cal == "bufGetn" or cal == "bufSkip":
+            elif cal in ("bufGetn", "bufSkip", "fintGetn"):
                 a = n["c"][-1]
                 kv = const_value(a)
                 if kv is not None:
@@ -167,7 +176,20 @@ def abstract(stmts, widths, self_names):
 
     for s in stmts:
         visit(s)
-    return ev
+    return merge_fix(ev)
+
+
+def merge_fix(ev):
+    """Adjacent fixed-width events are one fixed-width event."""
+    out = []
+    for e in ev:
+        if e[0] == "fix" and out and out[-1][0] == "fix":
+            out[-1] = ("fix", out[-1][1] + e[1])
+        elif e[0] == "loop":
+            out.append(("loop", e[1], tuple(merge_fix(list(e[2])))))
+        else:
+            out.append(e)
+    return out
 
 
 def offsets(stmts):
@@ -202,7 +224,7 @@ def show(ev):
     return " ".join(one(e) for e in ev) or "-"
 
 
-def w1(rep, f_foam, widths):
+def w1(rep, f_foam, widths, f_fint=None):
     # alphabet
     rec = f_foam.records.get("foam_info")
     if rec is None:
@@ -223,6 +245,8 @@ def w1(rep, f_foam, widths):
     hdr_letters = set(prog_argf.split("C")[0]) - {"*"}
 
     fns = {n: f_foam.func(n) for n in [WRITER] + READERS + [SKIPPER]}
+    if f_fint is not None:
+        fns["skipProg"] = f_fint.func("skipProg")
     groups = {n: letter_groups(fn) for n, fn in fns.items()}
     selfn = set(fns)
     abst = {}
@@ -238,7 +262,7 @@ def w1(rep, f_foam, widths):
         if l not in wev:
             rep.violation("W1", "case:%s:%s" % (WRITER, l), where_w, "the encoder has no case for format letter '%s'" % l)
             continue
-        for n in READERS + [SKIPPER]:
+        for n in READERS + [SKIPPER] + (["skipProg"] if f_fint is not None else []):
             need = hdr_letters if n == "foamProgHdrFrBuffer" else alphabet
             if l not in need:
                 continue
@@ -247,7 +271,7 @@ def w1(rep, f_foam, widths):
                 rep.violation("W1", "case:%s:%s" % (n, l), "foam.c (%s)" % n,
                               "%s has no case for format letter '%s' (it ends in bugBadCase): a unit using it cannot be read back" % (n, l))
                 continue
-            where = "foam.c:%d (%s '%s')" % (groups[n][0][l]["line"], n, l)
+            where = "%s:%d (%s '%s')" % ("fint.c" if n == "skipProg" else "foam.c", groups[n][0][l]["line"], n, l)
             if abst[n][l] == wev[l]:
                 rep.ok("W1", key, sample={"letter": l, "events": show(wev[l]), "reader": n} if len(rep.samples) < 6 else None)
             else:
@@ -685,7 +709,8 @@ def run(tier, only=None):
             raise AnalysisBroken("width of buffer primitive %s could not be derived" % k)
     widths.setdefault("bufPutByte", 1)
     widths.setdefault("bufGetByte", 1)
-    alphabet = w1(rep, f_foam, widths)
+    f_fint = common.extract("fint.c", trees=["skipProg"])
+    alphabet = w1(rep, f_foam, widths, f_fint)
     w2(rep, f_buf, f_lib, widths)
     w4(rep, f_foam, f_lib)
     w5(rep, f_foam, alphabet)
